@@ -286,6 +286,76 @@ pub fn first_difference(before: &ScionPath, after: &ScionPath) -> (String, Strin
     ("changed:other".into(), format!("{before:?}\n  -> {after:?}"))
 }
 
+/// smallest paths carrying one kind of per-link metadata each (documented regression inputs)
+pub fn minimal_vals() -> Vec<PathVal> {
+    let raw = |hops: usize| {
+        encode_std_path(&RStd {
+            curr_inf: 0,
+            curr_hf: 0,
+            rsv: 0,
+            seg_len: [hops as u8, 0, 0],
+            infos: vec![RInfo { flags: 1, rsv: 0, seg_id: 1, ts: 1_700_000_000 }],
+            hops: (0..hops).map(|i| RHop { flags: 0, exp: 63, ing: i as u16, eg: i as u16 + 1, mac: [i as u8; 6] }).collect(),
+        })
+    };
+    let base = |ases: usize| PathVal {
+        src: 0x0001_ff00_0000_0110,
+        dst: 0x0001_ff00_0000_0111,
+        raw: raw(ases),
+        exp: 1_700_003_600,
+        mtu: 1400,
+        ifs: (0..2 * (ases - 1)).map(|i| IfSpec { ia: 0x0001_ff00_0000_0110 + (i as u64 + 1) / 2, id: i as u16 + 1, geo: None, latency: None, bandwidth: None }).collect(),
+        link_types: None,
+        internal_hops: None,
+        notes: None,
+        next_hop: None,
+    };
+    let mut v = vec![];
+    // positive control: geo and notes only
+    let mut p = base(2);
+    p.ifs[0].geo = Some((47.4, 8.5, Some("Zurich".into())));
+    p.notes = Some(vec!["a".into(), "b".into()]);
+    v.push(p);
+    let mut p = base(2);
+    p.ifs[0].latency = Some((0, 1_000_000));
+    v.push(p);
+    let mut p = base(2);
+    p.ifs[0].bandwidth = Some(1000);
+    v.push(p);
+    let mut p = base(2);
+    p.link_types = Some(vec![1]);
+    v.push(p);
+    let mut p = base(3);
+    p.internal_hops = Some(vec![3]);
+    v.push(p);
+    v
+}
+
+/// smallest messages: a plain well-formed one (positive control) and one with a negative expiration
+pub fn minimal_msgs() -> Vec<PathMsg> {
+    let v = &minimal_vals()[0];
+    let base = PathMsg {
+        src: v.src,
+        dst: v.dst,
+        raw: v.raw.clone(),
+        ifs: v.ifs.iter().map(|i| (i.ia, i.id as u64)).collect(),
+        mtu: 1400,
+        exp: Some((1_700_003_600, 0)),
+        latency: vec![],
+        bandwidth: vec![],
+        geo: vec![],
+        link_type: vec![],
+        internal_hops: vec![],
+        notes: vec![],
+        addr: None,
+        epic: None,
+        discovery: false,
+    };
+    let mut neg = base.clone();
+    neg.exp = Some((-1, 0));
+    vec![base, neg]
+}
+
 pub fn has_per_link(p: &PathVal) -> bool {
     p.link_types.is_some() || p.internal_hops.is_some() || p.ifs.iter().any(|i| i.latency.is_some() || i.bandwidth.is_some())
 }
@@ -318,10 +388,13 @@ pub fn check_val(p: &PathVal, obs: &mut Obs) -> CheckResult {
 
 /// local (empty) paths
 pub fn check_local(ia: u64) -> CheckResult {
+    // documented: None if the AS is a wildcard (ISD 0 or AS 0)
+    let wildcard = (ia >> 48) == 0 || (ia & 0xffff_ffff_ffff) == 0;
     let Some(x) = ScionPath::local(IsdAsn(ia)) else {
-        ensure!(ia == 0, "path-local:none", "ScionPath::local({ia:#x}) is None");
+        ensure!(wildcard, "path-local:none", "ScionPath::local({ia:#x}) is None");
         return Ok(());
     };
+    ensure!(!wildcard, "path-local:wildcard-accepted", "ScionPath::local({ia:#x}) is Some for a wildcard");
     let y = ScionPath::try_from_rpc(through_wire(&x.to_rpc()), IsdAsn(ia), IsdAsn(ia)).map_err(|e| Fail::new("path-rt:local-rejected", e.to_string()))?;
     ensure!(same(&x, &y), "path-rt:local-differs", "local path round trip differs: {x:?} -> {y:?}");
     Ok(())
@@ -547,7 +620,11 @@ fn check_meaning(p: &PathMsg, v: &ScionPath) -> CheckResult {
     }
     ensure!(meta.mtu as u32 == p.mtu, "path-from-rpc:unfaithful:mtu", "sent mtu {}, value {}", p.mtu, meta.mtu);
     if let Some((s, _)) = p.exp {
-        ensure!(meta.expiration as i128 == s as i128, "path-from-rpc:unfaithful:expiration", "sent expiration {s} s, value {}", meta.expiration);
+        // a negative time is nonsensical input: value-or-error are both fine for the conversion
+        // itself; whatever value comes out is then held to the round-trip clause (see check_msg)
+        if s >= 0 {
+            ensure!(meta.expiration as i128 == s as i128, "path-from-rpc:unfaithful:expiration", "sent expiration {s} s, value {}", meta.expiration);
+        }
     }
     ensure!(v.src_ia().0 == p.src && v.dst_ia().0 == p.dst, "path-from-rpc:unfaithful:ia", "src/dst {:?}/{:?}", v.src_ia(), v.dst_ia());
     ensure!(v.dp_path().as_slice() == &p.raw[..], "path-from-rpc:unfaithful:raw", "raw path bytes changed");
@@ -651,6 +728,18 @@ pub fn check_msg(p: &PathMsg, obs: &mut Obs) -> CheckResult {
             // LinkType::Unknown(u8) cannot hold the value: documented type limit, observed only
             obs.label("observe:link-type-outside-u8-aliases");
             return Ok(());
+        }
+        if what == "changed:expiration" && matches!(p.exp, Some((s, _)) if s < 0) {
+            // grounded in the round-trip clause: the value produced from a negative timestamp does
+            // not survive to_rpc -> from_rpc
+            return Err(Fail::new(
+                "path-from-rpc:unfaithful:expiration",
+                format!(
+                    "expiration {:?} s is accepted as {} and that value does not survive its own RPC round trip: {detail}",
+                    p.exp.map(|e| e.0),
+                    v.metadata().map(|m| m.expiration).unwrap_or(0)
+                ),
+            ));
         }
         return Err(Fail::new(format!("path-rt:{what}"), format!("to_rpc(from_rpc(m)) re-parses to another value: {detail}")));
     }
